@@ -31,9 +31,11 @@ def sha1(*parts):
 def load_known(pid):
     """-> dict key -> description for 'finding:' lines of this property."""
     known = {}
-    if not os.path.exists(KNOWN_FILE):
-        return known
-    for line in open(KNOWN_FILE, encoding='utf-8'):
+    lines = []
+    for path in (KNOWN_FILE, os.path.join(VERIF, 'known', pid + '.txt')):
+        if os.path.exists(path):
+            lines += open(path, encoding='utf-8').read().splitlines()
+    for line in lines:
         line = line.strip()
         if not line.startswith('finding:'):
             continue
